@@ -2456,7 +2456,9 @@ func (a *Association) handleData(chunkPayload *chunkPayloadData) []*packet {
 	expectedTSN := a.peerLastTSN() + 1
 	gapDetected := sna32GT(chunkPayload.tsn, expectedTSN)
 
-	sackNow := chunkPayload.immediateSack || gapDetected
+	// RFC 9260 Sec 6.2: a duplicate DATA chunk (one that is not accepted because
+	// it was received before) must be acknowledged without delay as well.
+	sackNow := chunkPayload.immediateSack || gapDetected || !canPush
 	if state == shutdownSent {
 		sackNow = true
 	}
